@@ -121,6 +121,19 @@ package round
 // caller and a threshold 0 <= t <= n-1; otherwise an error and no session.
 //@ func NewSession
 //@   nopanic[C05,C20]
+//@   use absorb
+// (C09) the session tag is the digest of a transcript that absorbed, each under its own domain: the session identifier
+// (when given), the protocol identifier, the party list (self-delimiting encoding, C19), the threshold and every
+// auxiliary item (configuration, message, presignature identifier) the start function passed.
+//@   ensures[C09] result1 == nil ==> bval(result0.ssid) == hsum(hstate(result0.hash))
+//@   ensures[C09] (result1 == nil && sessionID != nil) ==> absorbed(hstate(result0.hash), h_bwd("Session ID", bval(sessionID)))
+//@   ensures[C09] result1 == nil ==> absorbed(hstate(result0.hash), h_bwd("Protocol ID", strbval(info.ProtocolID)))
+//@   ensures[C09] result1 == nil ==> absorbed(hstate(result0.hash), h_obj(iface(result0.partyIDs)))
+//@   ensures[C09] result1 == nil ==> absorbed(hstate(result0.hash), h_obj(iface(types.ThresholdWrapper(info.Threshold))))
+//@   ensures[C09] result1 == nil ==> each(auxInfo, a, a != nil ==> absorbed(hstate(result0.hash), hash.habs(a)))
+//@   loop 2: invariant[C09] sessionID != nil ==> absorbed(hstate(h), h_bwd("Session ID", bval(sessionID)))
+//@   loop 2: invariant[C09] absorbed(hstate(h), h_bwd("Protocol ID", strbval(info.ProtocolID))) && absorbed(hstate(h), h_obj(iface(partyIDs))) && absorbed(hstate(h), h_obj(iface(types.ThresholdWrapper(info.Threshold))))
+//@   loop 2: invariant[C09] each(auxInfo[:rangeindex+1], a, a != nil ==> absorbed(hstate(h), hash.habs(a)))
 //@   modifies nothing
 //@   allocates
 //@   ensures[C20] result1 != nil ==> result0 == nil
